@@ -359,17 +359,19 @@ def coq_eval(prop, header, terms, typ="N", shards=None, per_file_timeout=900):
             raise CheckError("coqc timed out on %s" % path)
         if r.returncode != 0:
             raise CheckError("coqc failed on %s:\n%s" % (path, (r.stdout + r.stderr)[-3000:]))
+        out = r.stdout
+        k = out.rfind("     = ")
+        if k < 0:
+            raise CheckError("cannot parse coqc output: " + out[-500:])
+        body = out[k + 7:]
+        e = body.rfind("\n     : ")
+        if e >= 0:
+            body = body[:e]
+        body = re.sub(r"%[A-Za-z_]+", "", body).replace("::", "")
         if typ == "N":
-            m = re.search(r"=\s*\[(.*?)\]\s*(%N)?\s*:\s*list N", r.stdout, flags=re.S)
-            if not m:
-                raise CheckError("cannot parse coqc output: " + r.stdout[-500:])
-            body = m.group(1).strip()
-            vals = [int(x) for x in re.findall(r"\d+", body)] if body else []
+            vals = [int(x) for x in re.findall(r"\d+", body)]
         else:
-            m = re.search(r"=\s*(\[.*\])\s*(%N)?\s*:\s*list \(list N\)", r.stdout, flags=re.S)
-            if not m:
-                raise CheckError("cannot parse coqc output: " + r.stdout[-500:])
-            vals = _parse_nested(m.group(1).replace("%N", ""))
+            vals = _parse_nested(body)
         if len(vals) != len(chunks[i]):
             raise CheckError("coqc returned %d values for %d cases" % (len(vals), len(chunks[i])))
         return vals
